@@ -61,63 +61,74 @@ pub fn copy_dir(from: &Path, to: &Path) -> std::io::Result<()> {
 }
 
 /// Reads everything; with `with_compaction` a major compaction and a second round of reads follow.
+/// `tolerant`: a call that returns an error is recorded as `ERR` and the workload goes on (C10: after
+/// an error later calls must still not serve different data); otherwise the first error ends it.
 pub fn workload_ext(cfg: &TreeCfg, dir: &Path, snaps: &[u64], with_compaction: bool) -> Result<Vec<String>, String> {
+    workload_full(cfg, dir, snaps, with_compaction, false)
+}
+
+pub fn workload_full(cfg: &TreeCfg, dir: &Path, snaps: &[u64], with_compaction: bool, tolerant: bool) -> Result<Vec<String>, String> {
     let mut d = DriverLite::open(cfg, dir)?;
     let t = d.tree.take().unwrap();
-    let mut out = vec![];
+    let mut out: Vec<String> = vec![];
     let mut keys = cfg.keys.clone();
     keys.push(crate::oracles::absent_key());
     keys.push(b"zzz".to_vec());
     let mut ss: Vec<u64> = snaps.to_vec();
     ss.push(SeqNo::MAX);
     let e = |x: lsm_tree::Error| format!("{x:?}");
+    // records one answer; Err(..) means "stop" (strict mode)
+    let mut rec = |label: String, r: Result<String, String>| -> Result<(), String> {
+        match r {
+            Ok(v) => {
+                out.push(format!("{label} = {v}"));
+                Ok(())
+            }
+            Err(x) if tolerant => {
+                out.push(format!("{label} = ERR {x}"));
+                Ok(())
+            }
+            Err(x) => Err(x),
+        }
+    };
+    let scan = |it: Box<dyn DoubleEndedIterator<Item = lsm_tree::IterGuardImpl> + Send>, rev: bool| -> Result<String, String> {
+        let mut v = vec![];
+        let mut it = it;
+        loop {
+            let g = if rev { it.next_back() } else { it.next() };
+            let Some(g) = g else { break };
+            let (k, val) = g.into_inner().map_err(e)?;
+            v.push((k.to_vec(), val.to_vec()));
+        }
+        Ok(format!("{v:?}"))
+    };
     for &s in &ss {
         for k in &keys {
-            out.push(format!("get {k:?}@{s} = {:?}", t.get(k, s).map_err(e)?.map(|v| v.to_vec())));
-            out.push(format!("contains {k:?}@{s} = {:?}", t.contains_key(k, s).map_err(e)?));
-            out.push(format!("size_of {k:?}@{s} = {:?}", t.size_of(k, s).map_err(e)?));
+            rec(format!("get {k:?}@{s}"), t.get(k, s).map_err(e).map(|o| format!("{:?}", o.map(|v| v.to_vec()))))?;
+            rec(format!("contains {k:?}@{s}"), t.contains_key(k, s).map_err(e).map(|o| format!("{o:?}")))?;
+            rec(format!("size_of {k:?}@{s}"), t.size_of(k, s).map_err(e).map(|o| format!("{o:?}")))?;
         }
-        let mut fw = vec![];
-        for g in t.iter(s, None) {
-            let (k, v) = g.into_inner().map_err(e)?;
-            fw.push((k.to_vec(), v.to_vec()));
-        }
-        out.push(format!("scan@{s} = {fw:?}"));
-        let mut bw = vec![];
-        for g in t.iter(s, None).rev() {
-            let (k, v) = g.into_inner().map_err(e)?;
-            bw.push((k.to_vec(), v.to_vec()));
-        }
-        out.push(format!("scan_rev@{s} = {bw:?}"));
-        out.push(format!("len@{s} = {}", t.len(s, None).map_err(e)?));
-        out.push(format!(
-            "first@{s} = {:?}",
-            t.first_key_value(s, None).map(|g| g.into_inner().map(|(k, v)| (k.to_vec(), v.to_vec()))).transpose().map_err(e)?
-        ));
-        out.push(format!(
-            "last@{s} = {:?}",
-            t.last_key_value(s, None).map(|g| g.into_inner().map(|(k, v)| (k.to_vec(), v.to_vec()))).transpose().map_err(e)?
-        ));
-        // a sub-range and a prefix
-        let mut sub = vec![];
-        for g in t.range::<Vec<u8>, _>(cfg.keys[0].clone().., s, None) {
-            let (k, v) = g.into_inner().map_err(e)?;
-            sub.push((k.to_vec(), v.to_vec()));
-        }
-        out.push(format!("range[k0..]@{s} = {sub:?}"));
+        rec(format!("scan@{s}"), scan(t.iter(s, None), false))?;
+        rec(format!("scan_rev@{s}"), scan(t.iter(s, None), true))?;
+        rec(format!("len@{s}"), t.len(s, None).map_err(e).map(|n| n.to_string()))?;
+        rec(
+            format!("first@{s}"),
+            t.first_key_value(s, None).map(|g| g.into_inner().map(|(k, v)| (k.to_vec(), v.to_vec()))).transpose().map_err(e).map(|o| format!("{o:?}")),
+        )?;
+        rec(
+            format!("last@{s}"),
+            t.last_key_value(s, None).map(|g| g.into_inner().map(|(k, v)| (k.to_vec(), v.to_vec()))).transpose().map_err(e).map(|o| format!("{o:?}")),
+        )?;
+        rec(format!("range[k0..]@{s}"), scan(t.range::<Vec<u8>, _>(cfg.keys[0].clone().., s, None), false))?;
     }
     if with_compaction {
         // a compaction must not launder damaged data into well-formed tables
-        t.major_compact(u64::MAX, 0).map_err(e)?;
+        rec("major_compact".to_string(), t.major_compact(u64::MAX, 0).map_err(e).map(|()| "ok".to_string()))?;
         for k in &keys {
-            out.push(format!("after-compaction get {k:?} = {:?}", t.get(k, SeqNo::MAX).map_err(e)?.map(|v| v.to_vec())));
+            rec(format!("after-compaction get {k:?}"), t.get(k, SeqNo::MAX).map_err(e).map(|o| format!("{:?}", o.map(|v| v.to_vec()))))?;
         }
-        let mut fw = vec![];
-        for g in t.iter(SeqNo::MAX, None) {
-            let (k, v) = g.into_inner().map_err(e)?;
-            fw.push((k.to_vec(), v.to_vec()));
-        }
-        out.push(format!("after-compaction scan = {fw:?}"));
+        rec("after-compaction scan".to_string(), scan(t.iter(SeqNo::MAX, None), false))?;
+        rec("after-compaction scan_rev".to_string(), scan(t.iter(SeqNo::MAX, None), true))?;
     }
     Ok(out)
 }
@@ -266,7 +277,7 @@ pub fn worker_main() -> i32 {
             if job.kind != "none" {
                 mutate(&scratch.join(&job.file), &job.kind, job.offset, job.mask).map_err(|e| format!("HARNESS mutate: {e}"))?;
             }
-            workload_ext(&job.cfg, &scratch, &job.snaps, true).map_err(|e| format!("ERR {e}"))
+            workload_full(&job.cfg, &scratch, &job.snaps, true, true).map_err(|e| format!("ERR {e}"))
         });
         let _ = std::fs::remove_dir_all(&scratch);
         let out = match res {
@@ -282,14 +293,18 @@ pub fn worker_main() -> i32 {
                         Some(b) => {
                             if *b == ans {
                                 "SAME".to_string()
+                            } else if b.len() != ans.len() {
+                                "HARNESS different number of answers".to_string()
                             } else {
-                                let diff = b
-                                    .iter()
-                                    .zip(ans.iter())
-                                    .find(|(x, y)| x != y)
-                                    .map(|(x, y)| format!("baseline `{x}` mutant `{y}`"))
-                                    .unwrap_or_else(|| "different number of answers".into());
-                                format!("DIFF {}", diff.replace('\n', " "))
+                                // every answer either equals the pristine one or is an error
+                                let bad = b.iter().zip(ans.iter()).find(|(x, y)| x != y && !y.contains(" = ERR "));
+                                match bad {
+                                    Some((x, y)) => format!("DIFF baseline `{x}` mutant `{y}`").replace('\n', " "),
+                                    None => {
+                                        let first = b.iter().zip(ans.iter()).find(|(x, y)| x != y).map(|(_, y)| y.clone()).unwrap_or_default();
+                                        format!("ERR {}", first.chars().take(160).collect::<String>())
+                                    }
+                                }
                             }
                         }
                     }
